@@ -316,11 +316,30 @@ func (g *guard) paramTag(p *ssa.Parameter, depth int) string {
 		if ai < 0 || ai >= len(args) {
 			return ""
 		}
-		t := g.dynTag(args[ai], c.(ssa.Instruction).Block(), depth+1)
-		if t == "" || (tag != "" && t != tag) {
-			return ""
+		// where the facts about the arguments are to be taken: at the call – or, when the callee is chosen among several
+		// function values (cmp := evalNumberInfixExpression in one switch case, evalStringInfixExpression in another), at
+		// the end of the branch that chose THIS function
+		blocks := []*ssa.BasicBlock{c.(ssa.Instruction).Block()}
+		if ph, isPhi := c.Common().Value.(*ssa.Phi); isPhi && c.Common().StaticCallee() == nil && !c.Common().IsInvoke() {
+			var chosen []*ssa.BasicBlock
+			for i, ed := range ph.Edges {
+				for _, f := range g.e.closuresOf(ed, nil, 0) {
+					if f == fn {
+						chosen = append(chosen, ph.Block().Preds[i])
+					}
+				}
+			}
+			if len(chosen) > 0 {
+				blocks = chosen
+			}
 		}
-		tag = t
+		for _, blk := range blocks {
+			t := g.dynTag(args[ai], blk, depth+1)
+			if t == "" || (tag != "" && t != tag) {
+				return ""
+			}
+			tag = t
+		}
 	}
 	return tag
 }
@@ -328,6 +347,23 @@ func (g *guard) paramTag(p *ssa.Parameter, depth int) string {
 // callTag: the tag of a call's result when every return consistent with the call's constant arguments carries it.
 func (g *guard) callTag(c *ssa.Call, depth int) string {
 	f := c.Call.StaticCallee()
+	if f == nil && !c.Call.IsInvoke() {
+		// a call through a function value chosen among known functions: all of them must agree
+		fs := g.e.closuresOf(c.Call.Value, nil, 0)
+		tag := ""
+		for _, h := range fs {
+			t := g.callTagOf(c, h, depth)
+			if t == "" || (tag != "" && t != tag) {
+				return ""
+			}
+			tag = t
+		}
+		return tag
+	}
+	return g.callTagOf(c, f, depth)
+}
+
+func (g *guard) callTagOf(c *ssa.Call, f *ssa.Function, depth int) string {
 	if f == nil || f.Blocks == nil || g.e.fnRole(f) == "" {
 		return ""
 	}
